@@ -145,6 +145,18 @@ def run_variant(args):
             elif err or und:
                 out["status"] = "UNDECIDED-ON-PRESERVING"
                 out["detail"] = err or f"{und[0].rule}: {und[0].detail[:120]}"
+                # a stored refactoring that rebuilds an anchored function beyond what the rule's normal forms cover: the check ends
+                # WITHOUT a verdict (exit 2, never a violation).  Recorded with its reason in the change's meta.json and in DESIGN 9.4;
+                # reported, not counted as silent and not as a defect of the checker.
+                if variant.get("seed"):
+                    try:
+                        import json as _json
+                        why = _json.load(open(os.path.join(core.VERIF, "seeded", variant["seed"], "meta.json"))).get("static_no_verdict")
+                    except Exception:
+                        why = None
+                    if why and prop in why:
+                        out["status"] = "no-verdict-restructured"
+                        out["detail"] = str(why[prop])[:200]
             else:
                 out["status"] = "silent"
     except Exception as e:
